@@ -257,6 +257,28 @@ func (e *Engine) builtin(s *State, f *Frame, b *ssa.Builtin, cc *ssa.CallCommon,
 		if len(p.Path) > 0 && p.Path[0].Idx != nil {
 			off = p.Path[0].Idx
 		}
+		if pt, ok := cc.Args[0].Type().Underlying().(*types.Pointer); ok && p.Obj != 0 {
+			if o := s.heap[p.Obj]; (o.Kind == kBytes || o.Kind == kBuffer) && sizeOf(pt.Elem()) != 1 {
+				// bytes viewed as wider elements: a view object whose elements are unknown here (their values are
+				// the bytes in host order) and which shares the memory of the byte object
+				if !n.IsConst() || n.Val > 1<<20 {
+					panic(engineUnsupported("unsafe.Slice view of bytes with a symbolic element count at " + site))
+				}
+				vo := &Obj{Kind: kElems, ET: pt.Elem()}
+				w, _, okw := width(pt.Elem())
+				if !okw {
+					panic(engineUnsupported("unsafe.Slice view of bytes as " + pt.Elem().String()))
+				}
+				for i := 0; i < int(n.Val); i++ {
+					vo.E = append(vo.E, e.freshVar("viewel", w))
+				}
+				id := s.newObj(vo)
+				s.aliasNote(id, p.Obj)
+				s.imprec = append(s.imprec, "unsafe.Slice view of bytes as wider elements: element values not tracked at "+site)
+				set(&SliceV{Obj: id, Off: CI(0), Len: n, Cap: n})
+				break
+			}
+		}
 		set(&SliceV{Obj: p.Obj, Off: off, Len: n, Cap: n})
 	case "print", "println":
 	case "clear":
